@@ -59,12 +59,15 @@ def gen_case(rng, max_cells=40, max_mag=8, max_events=120, zero_frac=None, rate_
         good = numpy.nonzero(rates.ravel() > 0)[0]
         flat = numpy.where(pos, flat, rng.choice(good, n_ev))
     ev_cell, ev_mag = numpy.divmod(flat, nmag)
+    magoff = rng.uniform(0.1, 0.9, n_ev)
+    top = (ev_mag == nmag - 1) & (rng.uniform(size=n_ev) < 0.5)
+    magoff = numpy.where(top, rng.uniform(1.5, 25.0, n_ev), magoff)      # the last bin is open-ended: magnitudes far above the last edge
     case = {
         "nx": nx, "ny": ny, "dh": str(rng.choice(["0.1", "0.5", "0.25", "1"])),
         "ax": str(rng.choice(["-125.4", "10", "0", "165.7", "-0.5"])), "ay": str(rng.choice(["31.5", "-47.9", "0", "-0.5", "40"])),
         "mag0": str(rng.choice(["4.95", "5.0", "2.5", "5.95"])), "dmag": str(rng.choice(["0.1", "0.2", "0.5"])), "nmag": nmag,
         "rates": rates.tolist(), "ev_cell": ev_cell.tolist(), "ev_mag": ev_mag.tolist(),
-        "frac": rng.uniform(0.15, 0.85, (n_ev, 2)).tolist(), "magoff": rng.uniform(0.1, 0.9, n_ev).tolist(),
+        "frac": rng.uniform(0.15, 0.85, (n_ev, 2)).tolist(), "magoff": magoff.tolist(),
     }
     return case
 
